@@ -95,6 +95,13 @@ fn main() {
         "export-db" => {
             db::export(rbx_reflection_database::get(), &mut out);
         }
+        "dom-decoded" => {
+            let max_ref: usize = arg(&args, "--maxref", "20").parse().unwrap();
+            let seed: u64 = arg(&args, "--seed", "1").parse().unwrap();
+            let episodes: usize = arg(&args, "--episodes", "10").parse().unwrap();
+            let steps: usize = arg(&args, "--steps", "10").parse().unwrap();
+            dom::drive_decoded(seed, episodes, steps, max_ref, &mut out);
+        }
         "sstr-replay" => {
             let threads: usize = arg(&args, "--threads", "3").parse().unwrap();
             let slots: usize = arg(&args, "--slots", "2").parse().unwrap();
